@@ -596,7 +596,7 @@ func (ex *Exec) step(fr *Frame, ins ssa.Instruction) {
 		}
 		k := ex.get(fr, x.Key)
 		ex.mapAccess(m, true)
-		m.Entries[ex.keyString(k)] = &mapEntry{K: k, V: copyVal(ex.get(fr, x.Value))}
+		ex.mapSet(m, k, ex.get(fr, x.Value), x.Map.Type().Underlying().(*types.Map).Elem())
 	case *ssa.Lookup:
 		fr.locals[x] = ex.lookup(x, ex.get(fr, x.X), ex.get(fr, x.Index))
 	case *ssa.Range:
@@ -909,8 +909,8 @@ func (ex *Exec) lookup(x *ssa.Lookup, base, idx Value) Value {
 		found := false
 		if !b.Nil {
 			ex.mapAccess(b, false)
-			if e, ok := b.Entries[ex.keyString(idx)]; ok {
-				val, found = copyVal(e.V), true
+			if e, ok := b.Entries[ex.keyString(idx)]; ok && ex.entryPresent(e) {
+				val, found = ex.entryVal(e), true
 			}
 		}
 		if !found {
@@ -965,8 +965,8 @@ func (ex *Exec) rangeNext(x *ssa.Next, v Value) Value {
 	for it.pos < len(it.keys) {
 		k := it.keys[it.pos]
 		it.pos++
-		if e, ok := it.m.Entries[k]; ok {
-			return TupleV{ex.ts.Bool(true), e.K, copyVal(e.V)}
+		if e, ok := it.m.Entries[k]; ok && ex.entryPresent(e) {
+			return TupleV{ex.ts.Bool(true), e.K, ex.entryVal(e)}
 		}
 	}
 	kz, vz := Value(nil), Value(nil)
@@ -1117,7 +1117,7 @@ func (ex *Exec) builtin(b *ssa.Builtin, args []Value, site *ssa.Call) Value {
 			if !x.Nil {
 				ex.mapAccess(x, false)
 			}
-			return ex.ts.IntS(SInt(64, true), int64(len(x.Entries)))
+			return ex.mapLen(x)
 		case *ChanV:
 			return ex.ts.IntS(SInt(64, true), int64(len(x.Buf)))
 		case *ArrayV:
@@ -1176,7 +1176,7 @@ func (ex *Exec) builtin(b *ssa.Builtin, args []Value, site *ssa.Call) Value {
 		m := args[0].(*MapV)
 		if !m.Nil {
 			ex.mapAccess(m, true)
-			delete(m.Entries, ex.keyString(args[1]))
+			ex.mapDelete(m, args[1])
 		}
 		return nil
 	case "close":
@@ -1204,6 +1204,72 @@ func (ex *Exec) builtin(b *ssa.Builtin, args []Value, site *ssa.Call) Value {
 }
 
 // mapAccess is a hook for the race analysis: a Go map is one location.
+// entryPresent: is the entry in the map?  Cell-backed entries (event-order mode) read the shared
+// "present" flag and fork on it.
+func (ex *Exec) entryPresent(e *mapEntry) bool {
+	if e.Cell == nil {
+		return true
+	}
+	t, ok := ex.load(&Ptr{Obj: e.Cell, Path: []int{0}}).(*Term)
+	if !ok {
+		panic(unsupported("map cell flag is not a term"))
+	}
+	return ex.branch(t, nil)
+}
+
+func (ex *Exec) entryVal(e *mapEntry) Value {
+	if e.Cell == nil {
+		return copyVal(e.V)
+	}
+	return ex.load(&Ptr{Obj: e.Cell, Path: []int{1}})
+}
+
+func (ex *Exec) mapSet(m *MapV, k, v Value, elem types.Type) {
+	ks := ex.keyString(k)
+	if e, ok := m.Entries[ks]; ok && e.Cell != nil {
+		ex.store(&Ptr{Obj: e.Cell, Path: []int{0}}, ex.ts.Bool(true))
+		ex.store(&Ptr{Obj: e.Cell, Path: []int{1}}, v)
+		return
+	}
+	m.Entries[ks] = &mapEntry{K: k, V: copyVal(v)}
+	if ex.conc != nil {
+		ex.concNewMapKey(m, ks, k, elem)
+	}
+}
+
+func (ex *Exec) mapDelete(m *MapV, k Value) {
+	ks := ex.keyString(k)
+	if e, ok := m.Entries[ks]; ok && e.Cell != nil {
+		ex.store(&Ptr{Obj: e.Cell, Path: []int{0}}, ex.ts.Bool(false))
+		return
+	}
+	delete(m.Entries, ks)
+}
+
+func (ex *Exec) mapLen(m *MapV) Value {
+	n := 0
+	var sym *Term
+	for _, k := range m.sortedKeys() {
+		e := m.Entries[k]
+		if e.Cell == nil {
+			n++
+			continue
+		}
+		t := ex.load(&Ptr{Obj: e.Cell, Path: []int{0}}).(*Term)
+		one := ex.ts.Ite(t, ex.ts.IntS(SInt(64, true), 1), ex.ts.IntS(SInt(64, true), 0))
+		if sym == nil {
+			sym = one
+		} else {
+			sym = ex.ts.IntBin("add", sym, one)
+		}
+	}
+	base := ex.ts.IntS(SInt(64, true), int64(n))
+	if sym == nil {
+		return base
+	}
+	return ex.ts.IntBin("add", base, sym)
+}
+
 func (ex *Exec) mapAccess(m *MapV, write bool) {
 	if ex.conc != nil {
 		ex.concMapAccess(m, write)
